@@ -15,6 +15,11 @@ CLAIMED = {
         "text": "For every raise site of the reader (invalid row, decode error, converter failure) the enclosing try/with chain and every strong call path up to read_swc / Tree.from_swc / LazyLoadingTrees is walked: no context manager whose __exit__ can return a truthy value, no handler that completes without raising. All CFG paths through the per-line loop body are enumerated and classified (row / comment / raise / blank / filtered header); an effect-free path is a violation. This is the 'never returns a shortened table' clause for every position of a bad line.",
         "note": ASSUME,
     },
+    "C03": {
+        "technique": "ownership / freshness abstract interpretation (interprocedural, callbacks expanded) + CFG must-pass-through + write-set lint",
+        "text": "Every tree->tree operation is discovered from annotations (tree_utils functions, Transform subclasses, Node.subtree, copy) and interpreted over an ownership domain: abstract values carry the set of input trees whose storage or object they may share; callees, property setters, traversal kernels and callbacks are expanded on demand with the abstract arguments; a numpy view/copy table separates views from allocations. Verdict per operation: no store through an alias of an input (inputs untouched) and the returned tree is a fresh object with every column and the comment list freshly allocated (no shared storage). Topology-changing operations must pass a renumbering routine on every path to a return (CFG must-pass-through over resolved callees); geometric operations store only to x/y/z (or r). Pipelines follow by composition.",
+        "note": ASSUME + " numpy view/copy table and copy.deepcopy semantics as listed in the evidence file.",
+    },
     "C04": {
         "technique": "call-graph cycle check (receiver-class-sensitive) + frame-discipline rules on the DFS kernel's AST",
         "text": "Recursion-freedom of everything strongly reachable from swc_utils.traverse, Tree.traverse and Tree.Node.traverse (callbacks excluded as user code) gives a constant interpreter stack depth at any tree depth. The explicit-stack kernel is checked for the obligations that make it structural recursion: LIFO pop, leave frame pushed below the child frames, exactly one enter and one leave call site per frame outside inner loops, the child receives the value its parent's enter returned, leave receives one popped value per child from the same child list, the start node's value is returned, children map keyed by parent id; the Tree/Node wrappers forward both callbacks and the root.",
